@@ -279,6 +279,7 @@ var collDefs = []collDef{
 	{kind: "string", kt: "int", vt: "rune", lit: `"héy\xffz"`, n: 5},
 	{kind: "string", kt: "int", vt: "rune", lit: `"a\uFFFDb\xef\xbf"`, n: 5},
 	{kind: "string", kt: "int", vt: "rune", lit: `""`, n: 0},
+	{kind: "string", kt: "int", vt: "rune", lit: `tr.MyStr("hé\xffy")`, n: 4}, // named string type
 	{kind: "slice", kt: "int", vt: "int", lit: `[]int{4, 5, 6}`, n: 3, muts: []string{"c[2] = 60 + n", "c = append(c, 7)", "c = c[:1]", "c[0] = 9"}},
 	{kind: "slice", kt: "int", vt: "any", lit: `[]any{1, nil, "z"}`, n: 3, muts: []string{"c[1] = n"}},
 	{kind: "slice", kt: "int", vt: "int", lit: `[]int(nil)`, n: 0},
@@ -308,6 +309,9 @@ var collDefs = []collDef{
 	{kind: "int", kt: "int64", vt: "", lit: `int64(3)`, n: 3},
 	{kind: "int", kt: "uint8", vt: "", lit: `uint8(2)`, n: 2},
 	{kind: "int", kt: "tr.MyInt", vt: "", lit: `tr.MyInt(2)`, n: 2},
+	// untyped constant bound: with `=` and a typed variable the constant takes the variable's type
+	{kind: "int", kt: "uint8", vt: "", lit: `3`, n: 3, rangeExpr: "3"},
+	{kind: "int", kt: "int64", vt: "", lit: `2`, n: 2, rangeExpr: "1 + 1"},
 	{kind: "int", kt: "uint64", vt: "", lit: `uint64(1)<<63 + 5`, n: 3, hugeBound: true},
 	{kind: "int", kt: "uint", vt: "", lit: `^uint(0)`, n: 3, hugeBound: true},
 }
